@@ -44,11 +44,14 @@ def default_params():
         reenter=None,               # [side, event_kind, action] action performed inside the callback
         close_twice=False,
         welcome_error=None, welcome_motd=None,
+        welcome_error_late=None,    # [k, text]: connections after the k-th are greeted with an error welcome
         inject_error=None,          # side to which a server `error` may be injected
         refuse=[0, 0],              # first N connection attempts refused
         gets="early",               # deferred API: when get_*() are requested: early | late | tape | after (closed)
         third=None,                 # None | "before" | "after": a raw third client claims the nameplate
         hs_fail=[0, 0],             # budget of reconnections whose WebSocket negotiation fails
+        w_s2c=None,                 # [w0, w1] scheduling weight of server->client delivery per side (default w_progress)
+        dilate=[False, False],      # the side also calls w.dilate(): dilate-N records share the mailbox
         hs_fail_first=[False, False],   # the first connection's WebSocket negotiation may fail (a scheduler event)
         hs_slow=[False, False],     # TCP connection and WebSocket negotiation are separate scheduler events
         extra_msg_gets=0,           # deferred API: additional concurrently outstanding get_message() chains
@@ -267,6 +270,8 @@ def run(P, on_step=None, setup=None, at_stable=None, adversary=None, on_idle=Non
     P = dict(default_params(), **P)
     rec = Rec(P)
     W = World(entropy_key(P), welcome_motd=P["welcome_motd"], welcome_error=P["welcome_error"])
+    if P.get("welcome_error_late"):
+        W.late_welcome = tuple(P["welcome_error_late"])
     rec.world = W
     tape = Tape(P["tape"])
     try:
@@ -277,11 +282,22 @@ def run(P, on_step=None, setup=None, at_stable=None, adversary=None, on_idle=Non
     return rec
 
 
+def _settle(W, P, max_steps=None):
+    """stabilisation; with a dilated side the keep-alive timer never stops, so virtual time is bounded and
+    'only timers beyond the bound remain' counts as quiescent"""
+    if any(P.get("dilate") or []) and P.get("mode") == "deferred":
+        st = W.settle(max_steps=max_steps or P.get("settle_steps", 1500), max_time=5.0)
+        return "quiescent" if st == "time" else st
+    return W.settle(max_steps=max_steps or P.get("settle_steps", 1500))
+
+
 def _run(P, rec, W, tape, on_step, setup, at_stable, adversary=None, on_idle=None):
     mode = P["mode"]
     ws = rec.ws
     for i in range(2):
         kw = dict(versions=P["versions"][i])
+        if P["dilate"][i]:
+            kw["dilation"] = True
         if mode == "delegate":
             kw["delegate"] = Delegate(rec, i)
         w = W.create(P["appids"][i], **kw)
@@ -331,6 +347,9 @@ def _run(P, rec, W, tape, on_step, setup, at_stable, adversary=None, on_idle=Non
             intents.append(("input", i))
         for k in range(len(P["sends"][i])):
             intents.append(("send", i, k))
+    for i in range(2):
+        if P["dilate"][i] and mode == "deferred":      # (the delegated API has no dilate())
+            intents.append(("dilate", i))
     for c in P["closes"]:
         intents.append(("close", c[0], c[1]))
     third = None
@@ -369,6 +388,8 @@ def _run(P, rec, W, tape, on_step, setup, at_stable, adversary=None, on_idle=Non
             return rec.close_called[it[1]] is None
         if k == "send":
             return nsent[it[1]] == it[2]
+        if k == "dilate":
+            return rec.close_called[it[1]] is None
         if k == "close":
             if it[2] == "halfopen":
                 # while the WebSocket negotiation of a connection of this side is in flight
@@ -421,6 +442,9 @@ def _run(P, rec, W, tape, on_step, setup, at_stable, adversary=None, on_idle=Non
                 nsent[it[1]] += 1
                 ws[it[1]].send_message(m)
                 rec.sent[it[1]].append(m)
+            elif k == "dilate":
+                rec.dilated = getattr(rec, "dilated", {})
+                rec.dilated[it[1]] = ws[it[1]].dilate(no_listen=bool(P.get("dilate_no_listen")))
             elif k == "close":
                 rec.do_close(it[1])
                 if P["close_twice"]:
@@ -532,6 +556,9 @@ def _run(P, rec, W, tape, on_step, setup, at_stable, adversary=None, on_idle=Non
                     choices.append((P["w_drop"], e))
             elif e[0] == "mb.hsfail":
                 choices.append((P["w_drop"] + 2, e))
+            elif e[0] == "mb.s2c" and P.get("w_s2c") and e[1].svc in W.services[:2]:
+                # a slow reader: its inbound queue builds up (and is then duplicated / reordered as a whole)
+                choices.append((P["w_s2c"][W.services.index(e[1].svc)], e))
             else:
                 choices.append((P["w_progress"], e))
         for it in intents:
@@ -595,7 +622,7 @@ def _run(P, rec, W, tape, on_step, setup, at_stable, adversary=None, on_idle=Non
                 rec.step += 1
                 do_intent(it)
                 progress = True
-            st = W.settle(max_steps=P.get("settle_steps", 1500))
+            st = _settle(W, P)
             rec.settle.append(st)
             if on_step is not None:
                 on_step(rec)
@@ -606,7 +633,7 @@ def _run(P, rec, W, tape, on_step, setup, at_stable, adversary=None, on_idle=Non
             for g in list(gets_pending[i]):
                 gets_pending[i].remove(g)
                 _request_get(rec, i, g)
-        rec.settle.append(W.settle(max_steps=P.get("settle_steps", 1500)))
+        rec.settle.append(_settle(W, P))
     rec.stable_snapshot = dict(
         kinds=[rec.kinds(0), rec.kinds(1)],
         msgs=[rec.msgs(0), rec.msgs(1)],
@@ -628,14 +655,14 @@ def _run(P, rec, W, tape, on_step, setup, at_stable, adversary=None, on_idle=Non
                 rec.api_exc.append((("final-close", i), ex))
     if third is not None:
         third.close()
-    rec.settle.append(W.settle(max_steps=P.get("settle_steps", 1500)))
+    rec.settle.append(_settle(W, P))
     if on_step is not None:
         on_step(rec)
     if mode == "deferred" and P.get("get_after_closed"):
         for i in range(2):
             for g in ["welcome", "code", "key", "verifier", "versions", "msg"]:
                 _request_get(rec, i, g)
-        rec.settle.append(W.settle(max_steps=1000))
+        rec.settle.append(_settle(W, P, 1000))
     for i in range(2):
         if mode == "delegate":
             cl = [e for e in rec.evs[i] if e[0] == "closed"]
